@@ -85,18 +85,32 @@ def same(res_val, oracle):
     return views.all_eq(res_val, oracle)
 
 
+FRONT = "ro"
+
+
 class Env:
     """One model with decision variables x (shape sx), y (shape sy), random z (shape sz) and their value arrays."""
 
     def __init__(self, c, sx, sy=None, sz=None, nz_assume=True):
         self.c = c
-        self.m = ro.Model()
-        pad = self.m.dvar(2)
-        self.x = self.m.dvar(sx)
-        self.y = self.m.dvar(sy) if sy is not None else None
-        self.z = self.m.rvar(sz) if sz is not None else None
-        self.w = self.m.rvar(2) if sz is not None else None
-        nd, nr = self.m.rc_model.last, self.m.sup_model.last
+        if FRONT == "dro":
+            # the dro wrappers (DecVar / DecAffine / DecRoAffine / RandVar) over the same algebra
+            from ..harness import dro
+            self.m = dro.Model(2)
+            pad = self.m.dvar(2)
+            self.x = self.m.dvar(sx)
+            self.y = self.m.dvar(sy) if sy is not None else None
+            self.z = self.m.rvar(sz) if sz is not None else None
+            self.w = self.m.rvar(2) if sz is not None else None
+            nd, nr = self.m.vt_model.last, self.m.sup_model.last
+        else:
+            self.m = ro.Model()
+            pad = self.m.dvar(2)
+            self.x = self.m.dvar(sx)
+            self.y = self.m.dvar(sy) if sy is not None else None
+            self.z = self.m.rvar(sz) if sz is not None else None
+            self.w = self.m.rvar(2) if sz is not None else None
+            nd, nr = self.m.rc_model.last, self.m.sup_model.last
         self.xbar = arr([c.fresh_real(f"x{i}_") for i in range(nd)])
         self.zbar = arr([c.fresh_real(f"z{i}_") for i in range(nr)]) if nr else arr([])
         self.nz = nz_assume
@@ -295,6 +309,33 @@ def reshaping(shapes):
         if len(sv) >= 1:
             out += _run("rsome.lp:Vars.sum", f"var{sv}.sum()", lambda c, sv=sv: (lambda env: (env, {"e": env.x}, {"e": env.vals(env.x)}))(Env(c, sv)),
                         lambda o: o["e"].sum(), lambda v: np.asarray(v["e"], dtype=object).sum())
+    return out
+
+
+def stateful_reuse():
+    """The SAME stored expression object used several times: a first use (which may fill internal caches) must not
+    change what a later reshape / transpose / index / sum of that object denotes."""
+    out = []
+    warmups = {"e[0]": lambda e: e[0], "e[:, 1]": lambda e: e[:, 1], "e.sum(0)": lambda e: e.sum(axis=0), "e.sum()": lambda e: e.sum(),
+               "e.T": lambda e: e.T, "e.reshape": lambda e: e.reshape((3, 2)), "e[1, ::2]": lambda e: e[1, ::2], "e+1": lambda e: e + 1}
+    later = {"reshape((3,2))[1,0]": lambda e: e.reshape((3, 2))[1, 0], "reshape((3,2)).sum(0)": lambda e: e.reshape((3, 2)).sum(axis=0),
+             "reshape(6)[3]": lambda e: e.reshape((6,))[3], "flatten()[::2]": lambda e: e.flatten()[::2],
+             "reshape((3,2))[[0,2]]": lambda e: e.reshape((3, 2))[[0, 2]], "T[2]": lambda e: e.T[2], "reshape((1,6))[0,4]": lambda e: e.reshape((1, 6))[0, 4],
+             "e[1]": lambda e: e[1], "e.sum(1)": lambda e: e.sum(axis=1), "T.reshape((2,3))[1]": lambda e: e.T.reshape((2, 3))[1],
+             "reshape((3,2)).T[1]": lambda e: e.reshape((3, 2)).T[1]}
+    for kind in ("affine", "biaffine"):
+        def se(c, kind=kind):
+            env = Env(c, (2, 3), sz=(2, 3))
+            kc = env.const((2, 3), "k")
+            if kind == "affine":
+                return env, {"e": env.x * kc + 0.5}, {"e": env.vals(env.x) * kc + 0.5}
+            return env, {"e": env.x * env.z + env.x * kc}, {"e": env.vals(env.x) * env.vals(env.z) + env.vals(env.x) * kc}
+        for wn, wf in warmups.items():
+            for ln, lf in later.items():
+                if kind == "biaffine" and "flatten" in ln:
+                    continue                              # RoAffine has no flatten(): the attribute lookup itself raises (allowed: unsupported = loud)
+                out += _run("rsome.lp:Affine.<reuse of one object>", f"{kind}: {wn} then {ln}", se,
+                            lambda o, wf=wf, lf=lf: (wf(o["e"]), lf(o["e"]))[1], lambda v, lf=lf: lf(np.asarray(v["e"], dtype=object)))
     return out
 
 
@@ -511,9 +552,21 @@ def jobs(tier):
     js.append({"name": "reshaping", "kind": "reshaping", "shapes": [list(s) for s in sh]})
     js.append({"name": "triangular", "kind": "triangular", "shapes": [[2, 2], [2, 3], [3, 2], [3], [1, 1]]})
     js.append({"name": "stacking", "kind": "stacking"})
+    js.append({"name": "stateful-reuse", "kind": "reuse"})
+    js.append({"name": "dro-stateful-reuse", "kind": "reuse", "front": "dro"})
     js.append({"name": "biaffine", "kind": "biaffine"})
     js.append({"name": "sparse-const", "kind": "sparse_const"})
     js.append({"name": "shim-conformance", "kind": "conformance"})
+    # the dro front end: its wrapper classes must be the same algebra
+    dsh = [list(s) for s in (sh[:4] if tier == "quick" else sh)]
+    js.append({"name": "dro-elementwise", "kind": "elementwise", "shapes": dsh[:3], "others": dsh, "zeros": False, "front": "dro"})
+    js.append({"name": "dro-var-var", "kind": "var_var", "shapes": dsh, "front": "dro"})
+    js.append({"name": "dro-matmul", "kind": "matmul", "shapes": dsh[1:3], "others": dsh, "zeros": False, "front": "dro"})
+    js.append({"name": "dro-indexing", "kind": "indexing", "shapes": dsh[1:], "front": "dro"})
+    js.append({"name": "dro-reshaping", "kind": "reshaping", "shapes": dsh, "front": "dro"})
+    js.append({"name": "dro-triangular", "kind": "triangular", "shapes": [[2, 2], [2, 3], [3]], "front": "dro"})
+    js.append({"name": "dro-stacking", "kind": "stacking", "front": "dro"})
+    js.append({"name": "dro-biaffine", "kind": "biaffine", "front": "dro"})
     seed = int(os.environ.get("VERIF_SEED", "0") or 0)
     ncomp = 60 if tier == "quick" else 400
     for k in range(4):
@@ -526,6 +579,17 @@ def _t(x):
 
 
 def run_job(job):
+    global FRONT
+    FRONT = job.get("front", "ro")
+    out = _run_job(job)
+    if FRONT != "ro":
+        for o in out:
+            o["label"] = f"front={FRONT}," + (o.get("label") or "")
+            o["id"] = o["id"].replace("[", f"[front={FRONT},", 1) if "[" in o["id"] else o["id"] + f"[front={FRONT}]"
+    return out
+
+
+def _run_job(job):
     k = job["kind"]
     if k == "elementwise":
         out = []
@@ -547,6 +611,8 @@ def run_job(job):
         return triangular(_t(job["shapes"]))
     if k == "stacking":
         return stacking()
+    if k == "reuse":
+        return stateful_reuse()
     if k == "biaffine":
         return biaffine(None)
     if k == "sparse_const":
